@@ -88,6 +88,33 @@ func checkC10(e *Engine, r *Report) {
 			top := topFn(cs.Fn)
 			r.Check(top == setFn || top == getFn, "allowance key user › "+fnKey(cs.Fn), e.Pos(cs.Call.Pos()), "setter/getter only", "the allowance store key is built outside SetErc20CpcAllowance/GetErc20CpcAllowance (a second writer or deleter of allowances)")
 		}
+		// the allowance record must belong to ONE token: the key has to include the precompile's own address
+		kf := e.Fn(pkgCpcTypes, "Erc20CustomPrecompiledContractAllowanceKey")
+		nAddr := 0
+		for _, p := range kf.Params {
+			if namedTypePath(p.Type()) == GETH+"/common.Address" {
+				nAddr++
+			}
+		}
+		scoped := nAddr >= 3
+		if scoped {
+			// and the executors must hand their contract address down to the setter/getter
+			for _, f := range []*ssa.Function{approve, spend} {
+				for _, c := range callsTo(f, false, specSetAllow, specGetAllow) {
+					has := false
+					for _, a := range c.Common().Args {
+						sl := sliceFrom(a)
+						if sl.Has(func(v ssa.Value) bool { pp, ok := v.(*ssa.Parameter); return ok && pp.Name() == "contractAddr" }) || hasFieldLoad(sl, "CustomPrecompiledContractMeta", "Address") {
+							has = true
+						}
+					}
+					if !has {
+						scoped = false
+					}
+				}
+			}
+		}
+		r.Check(scoped, "x/cpc/types.Erc20CustomPrecompiledContractAllowanceKey › allowance scoped by token contract", e.Pos(kf.Pos()), "key(contract, owner, spender)", "the allowance record is keyed by (owner, spender) only: an allowance approved on one ERC-20 precompile is spendable through every other ERC-20 precompile (another denomination), and spending on one token reduces the allowance of all")
 		// setter and getter use the same (owner, spender) order
 		for _, f := range []*ssa.Function{setFn, getFn} {
 			ks := callsTo(f, false, specAllowKey)
